@@ -330,7 +330,7 @@ class Models:
         A(r'^core::str::<impl str>::split::<char>$', lambda ex, c, a: Iter('split', to_slice(ex, a[0]), 0, dict(ch=a[1], done=False)))
         A(r'^<std::str::Split<\'_, char> as Iterator>::next$', self.m_split_next)
         A(r'^<str as std::ops::Index<.*>>::index$', self.m_index_range)
-        A(r'^<\[u8\] as std::ops::Index<.*>>::index$', self.m_index_range)
+        A(r'^<\[u8\] as (?:std::ops::|core::ops::)?Index<.*>>::index$', self.m_index_range)
         A(r'^core::slice::<impl \[u8\]>::split::<', lambda ex, c, a: Iter('splitp', self.any_slice(ex, a[0]), 0, dict(pred=a[1], done=False)))
         A(r'^<(?:std|core)::slice::Split<.*> as Iterator>::collect::<Vec<', self.m_split_collect)
         A(r'^Vec::<.*>::len$', lambda ex, c, a: usize(len(ex.deref(a[0]).items)))
@@ -364,6 +364,15 @@ class Models:
         A(r'^std::cmp::Ordering::then$', lambda ex, c, a: a[1] if a[0].variant == 'Equal' else a[0])
         A(r'^std::cmp::Ordering::reverse$', lambda ex, c, a: ordering({'Less': 'Greater', 'Greater': 'Less', 'Equal': 'Equal'}[a[0].variant]))
         A(r'^<u32 as BitAnd<&u32>>::bitand$', lambda ex, c, a: I(z3.simplify(a[0].e & ex.deref(a[1]).e), False, 'u32'))
+        # ---------------- integer helpers (hashfunc and friends) ----------------
+        A(r'^<&\[u8\] as TryInto<\[u8; (\d+)\]>>::try_into$', self.m_try_into_array)
+        A(r'^core::num::<impl (u16|u32|u64)>::from_(ne|le)_bytes$', self.m_from_le_bytes)
+        A(r'^<(u16|u32|u64|usize) as From<(u8|u16|u32)>>::from$', lambda ex, c, a: I(z3.simplify(z3.ZeroExt(INT_TYPES[re.match(r'^<(\w+) ', c).group(1)][0] - a[0].bits, a[0].e)), False, re.match(r'^<(\w+) ', c).group(1)))
+        A(r'^core::num::<impl (u8|u16|u32|u64|usize)>::rotate_left$', lambda ex, c, a: I(z3.simplify(z3.RotateLeft(a[0].e, z3.ZeroExt(a[0].bits - a[1].bits, a[1].e) if a[1].bits < a[0].bits else a[1].e)), False, a[0].ty))
+        A(r'^<(u8|u16|u32|u64|usize) as BitXor>::bitxor$', lambda ex, c, a: I(z3.simplify(a[0].e ^ a[1].e), False, a[0].ty))
+        A(r'^core::num::<impl (u8|u16|u32|u64|usize)>::wrapping_mul$', lambda ex, c, a: I(z3.simplify(a[0].e * a[1].e), False, a[0].ty))
+        A(r'^core::num::<impl (u8|u16|u32|u64|usize)>::wrapping_add$', lambda ex, c, a: I(z3.simplify(a[0].e + a[1].e), False, a[0].ty))
+        A(r'^core::num::<impl (u8|u16|u32|u64|usize)>::wrapping_sub$', lambda ex, c, a: I(z3.simplify(a[0].e - a[1].e), False, a[0].ty))
         # ---------------- String building ----------------
         A(r'^std::string::String::with_capacity$', lambda ex, c, a: Str())
         A(r'^std::string::String::new$', lambda ex, c, a: Str())
@@ -600,6 +609,18 @@ class Models:
                 start = i + 1
         parts.append(sl.sub(start, sl.len))
         return VecV(parts)
+
+    def m_try_into_array(self, ex, c, a):
+        n = int(re.search(r'\[u8; (\d+)\]', c).group(1))
+        b = as_bytes_list(ex, a[0])
+        if len(b) != n:
+            return err(Opaque('TryFromSliceError'))
+        return ok(Agg('array', None, [I(x, False, 'u8') for x in b]))
+
+    def m_from_le_bytes(self, ex, c, a):
+        ty = re.search(r'impl (\w+)>', c).group(1)
+        bs = [x.e for x in a[0].fields]
+        return I(z3.simplify(z3.Concat(*reversed(bs))) if len(bs) > 1 else bs[0], False, ty)   # little endian (x86_64)
 
     def m_iter_find(self, ex, c, a):
         it = ex.deref(a[0])
